@@ -321,6 +321,8 @@ def is_none(v):
 		return v.term == v.T.none
 	if isinstance(v, SOpt):
 		return v.is_none()
+	if isinstance(v, SMaybe):
+		return v.none
 	return False
 
 
